@@ -29,6 +29,6 @@ const Cfg cfgs[] = {
    mk<MapAd<xenium::harris_michael_hash_map<int, int, xp::reclaimer<rc::EBR<0>>, xp::buckets<3>, xp::memoize_hash<false>, xp::hash<IdHash>, xp::map_to_bucket<RevBucket>>, int>>},
 };
 HMHarness h("hmmap", cfgs, sizeof(cfgs) / sizeof(cfgs[0]));
-struct Reg { Reg() { xsim::register_harness(&h); } } reg;
+struct Reg { Reg() { xsim::register_harness(&h); hx::register_reclaimer_probes(); xsim::fn_pair_probe("harris_michael: erase overlaps find of another thread", "harris_michael&5eraseE", "harris_michael&4findE"); xsim::fn_pair_probe("harris_michael: iterator increment overlaps erase", "iteratorppEv", "harris_michael&5eraseE"); xsim::fn_pair_probe("harris_michael: two erase overlap", "harris_michael&5eraseE", "harris_michael&5eraseE"); xsim::fn_probe("harris_michael_hash_map: iterator crosses a bucket boundary (move_to_next_bucket)", "19move_to_next_bucket"); xsim::fn_pair_probe("harris_michael_hash_map: move_to_next_bucket overlaps erase", "19move_to_next_bucket", "harris_michael&5eraseE"); } } reg;
 } // namespace
 XSIM_MAIN()
